@@ -1434,8 +1434,11 @@ fn check_with(c: &Case, f: &Facts) -> Result<Notes, String> {
             // "show the right line": the text handed to miette is, line by line, the input (control
             // characters replaced one for one); the CR of a CRLF line break belongs to the break,
             // not to the line, and must not show up as a visible character at the end of it
+            let pieces = c.text.split('\n').count();
             for (n, (shown, orig)) in s.split('\n').zip(c.text.split('\n')).enumerate() {
-                let orig = orig.strip_suffix('\r').unwrap_or(orig);
+                // (only a CR that is followed by LF: a CR at the very end of the input is a lone CR,
+                // a control character like any other - libFuzzer artifact of a thorough sweep)
+                let orig = if n + 1 < pieces { orig.strip_suffix('\r').unwrap_or(orig) } else { orig };
                 let (sh, og): (Vec<char>, Vec<char>) = (shown.trim_end().chars().collect(), orig.chars().collect());
                 let same = sh.len() <= og.len() && sh.iter().zip(og.iter()).all(|(a, b)| a == b || is_forbidden(*b));
                 if !same {
